@@ -30,7 +30,6 @@ CLAIMS = {
              'correspondence against the real decoders). partial: text invariance relies on the decoder model of C07/C09',
         technique='Coq proof (projection lemma over the pairing spec + keyed-state machine) + differential correspondence',
         ref='DESIGN.md §5 C05'),
-}
     'C12': dict(
         text='Coq theorems c12_events/sat_meaning/logs/no_logs_in_events/no_events_in_logs: for EVERY stream and EVERY '
              'configuration the filtered listings equal `filter` of the unfiltered listing by the stated predicate (order and '
